@@ -192,8 +192,35 @@ def builtin_then_merge_family():
     return out
 
 
+def failing_inside_shared_family():
+    """an environment S that is reached by two paths and has an import of its OWN that fails (loader error, missing, does
+    not parse): S is still the same value on every path (learnt from seeded change C10-m: the "failed" mark was recorded
+    under the importer's name, so the second path to S dropped it)"""
+    out = []
+    for bad in ({"kind": "fail"}, None, {"kind": "noparse", "text": "values: [1, 2\n"}):
+        for simports in ([("bad", True)], [("bad", True), ("G", True)], [("G", True), ("bad", False)]):
+            for rorder in (["S", "M"], ["M", "S"], ["M", "S", "M2"]):
+                envs = {"G": {"imports": [], "values": [("fromG", ("str", "g"))]},
+                        "S": {"imports": simports, "values": [("fromShared", ("str", "s")), ("o", ("obj", [("k", ("num", "1"))]))]},
+                        "M": {"imports": [("S", True)], "values": [("fromMid", ("str", "m"))]},
+                        "M2": {"imports": [("M", True), ("S", True)], "values": [("o", ("obj", [("k2", ("num", "2"))]))]}}
+                rv, seen = [], []
+                for m in sorted(set(rorder)):
+                    rv.append(("seen_" + m, ("sym", [("name", "imports"), ("name", m)])))
+                    seen.append(("seen_" + m, m))
+                envs["root"] = {"imports": [(m, True) for m in rorder], "values": rv}
+                c = G.case_from_graph(envs, "root")
+                if bad is not None:
+                    c["envs"]["bad"] = bad
+                c["provs"] = {}
+                c["seen"] = seen
+                out.append(c)
+    return out
+
+
 def gen(rng, tier):
     cases = alias_family() + multi_ref_family() + sparse_nesting_family() + builtin_then_merge_family()
+    cases += failing_inside_shared_family()
     n = 2500 if tier == "thorough" else 300
     for i in range(n):
         r = rng.fork("g%d" % i)
@@ -240,7 +267,7 @@ def line(c, o):
 
 
 def describe(c):
-    return {"root": G.render_env(c["def"]), "imports": {n: G.render_env(e["def"]) for n, e in c["envs"].items()}}
+    return {"root": G.render_env(c["def"]), "imports": {n: (G.render_env(e["def"]) if e.get("kind") == "def" else e.get("text", e.get("kind"))) for n, e in c["envs"].items()}}
 
 
 def shrink(c):
@@ -249,6 +276,8 @@ def shrink(c):
         if not d["values"][i][0].startswith("seen_"):
             yield dict(c, **{"def": {"imports": d["imports"], "values": d["values"][:i] + d["values"][i + 1:]}})
     for n, e in c["envs"].items():
+        if e.get("kind") != "def":
+            continue
         dd = e["def"]
         for i in range(len(dd["values"])):
             envs = dict(c["envs"])
